@@ -25,6 +25,8 @@ import (
 //     ; D n k          OpenDB(db<n>).Delete(k)
 //     ; B n k=v,k=~    OpenDB(db<n>).NewBatch(); Put/Delete...; Write()     (~ = delete)
 //     ; X n            s := OpenDB(db<n>); s.Close(); s.Drop()
+//     ; K n            OpenDB(db<n>).Close()   (closes the handle only)
+//     ; BB n ws1 ws2   one batch: fill ws1, Write, Write again, Reset, fill ws2, Write
 //     ; F id           producer.Flush(id)
 //     ; R              crash here (at this operation boundary): the producer is abandoned, a NEW SyncedPool /
 //                      flaggedproducer is created over the same databases and Initialize(names, nil)d; when that
@@ -124,10 +126,19 @@ func (b *c25Batch) Delete(k []byte) error {
 // ValueSize is scaled so that the IdealBatchSize split of Flushable.flush is reachable with small
 // values.  With acctV it counts like the leveldb/pebble batches (a batch of empty values has size 0).
 func (b *c25Batch) ValueSize() int {
+	v := b.Batch.ValueSize() * b.s.w.scale
 	if b.s.w.acctV {
-		return b.sizeV * b.s.w.scale
+		v = b.sizeV * b.s.w.scale
 	}
-	return b.Batch.ValueSize() * b.s.w.scale
+	if !b.s.w.quiet {
+		switch {
+		case v == kvdb.IdealBatchSize:
+			vu.Stat("sweep_batch_size_eq_ideal")
+		case v > kvdb.IdealBatchSize:
+			vu.Stat("sweep_batch_size_gt_ideal")
+		}
+	}
+	return v
 }
 func (b *c25Batch) Write() error {
 	ws := strings.Join(b.writes, ",")
@@ -188,10 +199,12 @@ func c25Apply(w *c25World, t string) {
 	}
 }
 
-func c25Recover(mode string, w *c25World, fk []byte, expected []byte) string {
+func c25Recover(mode string, w *c25World, fk []byte, expected []byte, names []string) string {
 	var id []byte
 	var err error
-	names := w.Names()
+	if names == nil {
+		names = w.Names()
+	}
 	if mode == "pool" {
 		id, err = flushable.NewSyncedPool(w, fk).Initialize(names, expected)
 	} else {
@@ -310,6 +323,31 @@ func c25Run(in []string) []string {
 				}
 			}
 			_ = b.Write()
+		case "K": // close the handle only; the store stays usable
+			s, _ := prod.OpenDB(c25Name(o[1]))
+			_ = s.Close()
+		case "BB": // one batch object used three times: Write, Write again without Reset, Reset + new content + Write
+			s, _ := prod.OpenDB(c25Name(o[1]))
+			b := s.NewBatch()
+			fill := func(ws string) {
+				if ws == "." {
+					return
+				}
+				for _, kv := range strings.Split(ws, ",") {
+					e := strings.Split(kv, "=")
+					if e[1] == "~" {
+						_ = b.Delete(vu.UnHex(e[0]))
+					} else {
+						_ = b.Put(vu.UnHex(e[0]), vu.UnHex(e[1]))
+					}
+				}
+			}
+			fill(o[2])
+			_ = b.Write()
+			_ = b.Write()
+			b.Reset()
+			fill(o[3])
+			_ = b.Write()
 		case "X":
 			s, _ := prod.OpenDB(c25Name(o[1]))
 			_ = s.Close()
@@ -354,7 +392,7 @@ func c25Run(in []string) []string {
 			flushIDs = append(flushIDs, vu.UnHex(o[1]))
 		}
 	}
-	var xverd []string
+	var xverd, yverd, zverd []string
 	obs := []string{"LOG"}
 	obs = append(obs, w.log...)
 	obs = append(obs, ";", "V")
@@ -364,15 +402,25 @@ func c25Run(in []string) []string {
 		for _, t := range durable[:k] {
 			c25Apply(cw, t)
 		}
-		v := c25Recover(mode, cw, fk, nil)
+		v := c25Recover(mode, cw, fk, nil, nil)
 		obs = append(obs, v)
 		// the same with an expected flush ID: the mark of flush (k mod (#flushes+1)), or a bogus one
 		exp := []byte{0x00, 0xee, 0xee}
 		if j := k % (len(flushIDs) + 1); j < len(flushIDs) {
 			exp = append([]byte{0x00}, flushIDs[j]...)
 		}
-		xv := c25Recover(mode, cw, fk, exp)
+		xv := c25Recover(mode, cw, fk, exp, nil)
 		xverd = append(xverd, xv)
+		// Initialize over a SUBSET of the surviving names (all but the first) ...
+		all := cw.Names()
+		if len(all) > 0 {
+			zverd = append(zverd, c25Recover(mode, cw, fk, nil, all[1:]))
+		} else {
+			zverd = append(zverd, c25Recover(mode, cw, fk, nil, []string{}))
+		}
+		// ... and over the surviving names plus one that does not exist (it is created, empty); last, it mutates cw
+		yverd = append(yverd, c25Recover(mode, cw, fk, nil, append(append([]string{}, all...), "dbnew")))
+		delete(cw.dbs, "dbnew")
 		vu.Stat("expected_verdict_" + xv[:1])
 		if v[0] == 'E' {
 			vu.Stat("verdict_" + v)
@@ -400,6 +448,10 @@ func c25Run(in []string) []string {
 			obs = append(obs, pres...)
 			obs = append(obs, ";", "X")
 			obs = append(obs, xverd...)
+			obs = append(obs, ";", "Y")
+			obs = append(obs, yverd...)
+			obs = append(obs, ";", "Z")
+			obs = append(obs, zverd...)
 			obs = append(obs, ";", "R"+vu.B(same))
 		}
 	}
@@ -469,14 +521,32 @@ func c25Gen(r *rand.Rand, n int, tier string, emit func(...string)) {
 		if r.Intn(5) < 2 {
 			mode = "flag"
 		}
-		fk := []string{"ff666c", "00", "6b"}[r.Intn(3)]
-		scale := []int{1, 1, 15000, 30000, 110000}[r.Intn(5)]
+		fk := []string{"ff666c", "00", "6b", "-"}[r.Intn(4)] // "-": the empty flush-ID key
+		// scales: 1 (never split), mid, and the exact boundaries n*scale == IdealBatchSize for n = 1, 2, 4, 5, 8
+		scale := []int{1, 1, 15000, 30000, 110000, 102400, 51200, 25600, 20480, 12800}[r.Intn(10)]
+		keys := c25Keys
+		if fk == "-" {
+			keys = c25Keys[:len(c25Keys)-1] // user keys differ from the flush-ID key
+			vu.Stat("sweep_empty_flush_id_key")
+		}
 		in := []string{mode, fk, strconv.Itoa(scale)}
 		if mode == "flag" && r.Intn(2) == 0 {
 			in = append(in, "v")
 		}
 		ndb := 2 + r.Intn(3)
+		switch r.Intn(12) {
+		case 0:
+			ndb = 1
+			vu.Stat("sweep_single_db")
+		case 1:
+			ndb = 8 + r.Intn(5) // many databases
+			vu.Stat("sweep_many_dbs")
+		}
 		nops := 5 + r.Intn(21)
+		if ndb > 4 {
+			nops += 15
+		}
+		dropped := map[string]bool{}
 		if tier == "thorough" {
 			nops += r.Intn(30)
 		}
@@ -491,21 +561,43 @@ func c25Gen(r *rand.Rand, n int, tier string, emit func(...string)) {
 			case x < 3:
 				in = append(in, "U", db)
 			case x < 10:
-				in = append(in, "P", db, c25Keys[r.Intn(len(c25Keys))], c25Val(r))
+				if dropped[db] {
+					vu.Stat("sweep_drop_then_recreate")
+					dropped[db] = false
+				}
+				in = append(in, "P", db, keys[r.Intn(len(keys))], c25Val(r))
+			case x < 12:
+				in = append(in, "D", db, keys[r.Intn(len(keys))])
 			case x < 13:
-				in = append(in, "D", db, c25Keys[r.Intn(len(c25Keys))])
+				if r.Intn(2) == 0 {
+					in = append(in, "K", db)
+				} else {
+					mk := func() string {
+						var ws []string
+						for q := r.Intn(3); q >= 0; q-- {
+							if r.Intn(4) == 0 {
+								ws = append(ws, keys[r.Intn(len(keys))]+"=~")
+							} else {
+								ws = append(ws, keys[r.Intn(len(keys))]+"="+c25Val(r))
+							}
+						}
+						return strings.Join(ws, ",")
+					}
+					in = append(in, "BB", db, mk(), mk())
+					vu.Stat("sweep_batch_reuse")
+				}
 			case x < 16:
 				var ws []string
 				flavour := r.Intn(6) // 0: empty values only, 1: the empty key with an empty value
 				for q := r.Intn(5); q >= 0; q-- {
 					if flavour == 0 {
-						ws = append(ws, c25Keys[r.Intn(len(c25Keys))]+"=-")
-					} else if flavour == 1 {
+						ws = append(ws, keys[r.Intn(len(keys))]+"=-")
+					} else if flavour == 1 && fk != "-" {
 						ws = append(ws, "-=-")
 					} else if r.Intn(4) == 0 {
-						ws = append(ws, c25Keys[r.Intn(len(c25Keys))]+"=~")
+						ws = append(ws, keys[r.Intn(len(keys))]+"=~")
 					} else {
-						ws = append(ws, c25Keys[r.Intn(len(c25Keys))]+"="+c25Val(r))
+						ws = append(ws, keys[r.Intn(len(keys))]+"="+c25Val(r))
 					}
 				}
 				if r.Intn(12) == 0 {
@@ -521,13 +613,20 @@ func c25Gen(r *rand.Rand, n int, tier string, emit func(...string)) {
 					in = append(in, "R")
 				} else {
 					in = append(in, "X", db)
+					dropped[db] = true
 				}
 			default:
 				flushes++
 				id := fmt.Sprintf("%02x", flushes)
-				switch r.Intn(12) {
+				switch r.Intn(14) {
+				case 12:
+					id = id[:2] // a one-byte ID
+				case 13:
+					id = strings.Repeat("ab", 40) + id // a long ID
+					vu.Stat("sweep_long_flush_id")
 				case 0:
 					id = "-" // empty flush ID
+					vu.Stat("sweep_empty_flush_id")
 				case 1:
 					id = "de" + id // an ID that starts with the dirty prefix byte
 				case 2:
@@ -535,12 +634,17 @@ func c25Gen(r *rand.Rand, n int, tier string, emit func(...string)) {
 						id = ids[r.Intn(len(ids)-1)]
 					}
 				}
-				if len(ids) > 0 && ids[len(ids)-1] == id && !(mode == "flag" && r.Intn(3) == 0) {
-					id = id + "00" // consecutive equal IDs only in flag mode, rarely (weaker guarantee there)
+				if len(ids) > 0 && ids[len(ids)-1] == id && r.Intn(3) != 0 {
+					id = id + "00"
 				}
-				if mode == "flag" && len(ids) > 0 && r.Intn(15) == 0 {
-					id = ids[len(ids)-1]
-					vu.Stat("flag_same_consecutive_id")
+				if len(ids) > 0 && r.Intn(15) == 0 {
+					id = ids[len(ids)-1] // the same ID twice in a row (pool: the strong statement still holds)
+				}
+				if len(ids) > 0 && ids[len(ids)-1] == id {
+					vu.Stat(mode + "_same_consecutive_id")
+				}
+				if len(in) >= 3 && in[len(in)-3] == "F" { // two flushes in a row: the second has nothing to flush
+					vu.Stat("sweep_flush_with_nothing_to_flush")
 				}
 				if id == "-00" {
 					id = "00"
